@@ -32,10 +32,6 @@ FILES = ["jaxley/solver_gate.py"] + kin.CHANNEL_FILES + kin.SYNAPSE_FILES + ["ja
 
 def check(repo, col, tier):
     col.rule("R-C03-api", "third-party call binds against the runtime signature", 300)
-    col.rule("R-C03-convex", "update == x*E + x_inf*(1-E), E = exp(-dt*k)", 10)
-    col.rule("R-C03-sign", "k > 0, 0 < x_inf < 1 over positive atoms", 20)
-    col.rule("R-C03-helper", "rate helper == c*exprel(u) on its main region", 2)
-    col.rule("R-C03-singular", "removable 0/0 singularities are guarded and filled continuously", 2)
 
     # ---- API-1
     files = None  # whole package: a call that cannot bind breaks whichever property runs through it
@@ -52,6 +48,15 @@ def check(repo, col, tier):
                     node=call, func=q)
     col.info["api_calls"] = n_api
 
+    # ---- the three gate solvers, on symbolic rates: closed-form solution of dx/dt = (x_inf - x)/tau
+    col.rule("R-C03-scheme", "gate solvers return x*E + x_inf*(1-E) with the exact x_inf and time constant of their arguments", 3)
+    if not _schemes(repo, col):
+        return  # the shared solver is wrong: the per-mechanism analysis below would only repeat it (and can blow up)
+    col.rule("R-C03-convex", "update == x*E + x_inf*(1-E), E = exp(-dt*k)", 10)
+    col.rule("R-C03-sign", "k > 0, 0 < x_inf < 1 over positive atoms", 20)
+    col.rule("R-C03-helper", "rate helper == c*exprel(u) on its main region", 2)
+    col.rule("R-C03-singular", "removable 0/0 singularities are guarded and filled continuously", 2)
+
     # ---- helpers: prove each equals c*exprel(u), find guards
     helpers = {}
     for f in kin.CHANNEL_FILES:
@@ -65,6 +70,18 @@ def check(repo, col, tier):
 
     # ---- singular voltages at call sites (witnesses)
     _call_site_witnesses(repo, col, helpers)
+
+    # ---- the steady state / rate each update moves toward are the mechanism's own (reference equations)
+    col.rule("R-C03-steady", "every state relaxes toward the steady state and with the rate of its reference kinetics", 10)
+    from . import c04
+    spec = kin.load_spec()
+    chan = {c.name: c for c in kin.mech_classes(repo, "Channel")}
+    syn = {c.name: c for c in kin.mech_classes(repo, "Synapse")}
+    for name, sp in spec.items():
+        cinfo = chan.get(name) or syn.get(name)
+        if cinfo is None:
+            raise AnalysisError(f"built-in mechanism class {name} vanished")
+        c04.update_laws(repo, col, "R-C03-steady", name, sp, cinfo, sp["kind"])
 
 
 # --------------------------------------------------------------------------------------
@@ -232,6 +249,33 @@ def _exprel_arg(ev, r: Rat):
 
 
 # --------------------------------------------------------------------------------------
+
+
+def _schemes(repo, col) -> bool:
+    R = "R-C03-scheme"
+    SG = "jaxley/solver_gate.py"
+    a, b, xi, tau = Rat.atom("alpha"), Rat.atom("beta"), Rat.atom("x_inf"), Rat.atom("tau")
+    want = {"solve_gate_exponential": (["x", "dt", "alpha", "beta"], a + b, a / (a + b)),
+            "exponential_euler": (["x", "dt", "x_inf", "tau"], ONE / tau, xi),
+            "solve_inf_gate_exponential": (["x", "dt", "x_inf", "tau"], ONE / tau, xi)}
+    allok = True
+    for name, (atoms, k_want, xinf_want) in want.items():
+        fi = repo.func(SG, name)
+        ev = kin.new_eval(repo)
+        try:
+            new = kin.main_region(ev.call(fi, [kin.A(x) for x in atoms]))
+            k, xinf, _E = kin.decompose_update(ev, rat_of(new), "x")
+        except Und as e:
+            allok = False
+            col.bad(R, fi, f"{name}: exponential-Euler form", f"{name} does not return x*exp(-dt*k) + x_inf*(1 - exp(-dt*k)): {e}", node=fi.node)
+            continue
+        ok = k.eq(k_want) and xinf.eq(xinf_want)
+        allok = allok and ok
+        col.check(ok, R, fi, f"{name}: rate k = {k_want}, fixed point x_inf = {xinf_want}", "exact closed form of the linear gate ODE",
+                  f"{name} relaxes with rate {k} toward {xinf}; the linear gate ODE of its arguments has rate {k_want} and steady state "
+                  f"{xinf_want}: a gate at its steady state moves away from it and every update deviates from the closed form",
+                  node=fi.node)
+    return allok
 
 
 def _sign_eval(repo, helpers):
